@@ -102,6 +102,11 @@ func Skip(dAtA []byte) (n int, err error) {
 		case 3:
 			groups = append(groups, wire>>3)
 			depth++
+			// protowire, and with it everything in protobuf-go that reads unknown fields again
+			// (proto.Equal, the text and JSON formats), refuses groups nested deeper than this
+			if depth > protowire.DefaultRecursionLimit+1 {
+				return 0, fmt.Errorf("proto: exceeded max recursion depth")
+			}
 		case 4:
 			if depth == 0 {
 				return 0, ErrUnexpectedEndOfGroup
